@@ -23,7 +23,8 @@ theorem load_one (padding : Nat) (path : String) (v : DirT) (hok : v.ok) (hcan :
     Option.bind_some, Option.pure_def] at this
   exact this
 
-def PrintableDate (z : Int) : Prop := 0 ≤ z ∧ z ≤ maxDate
+/-- 0000-01-01 … 9999-12-31: the dates `time.Parse("2006-01-02")` accepts -/
+def PrintableDate (z : Int) : Prop := minDate ≤ z ∧ z ≤ maxDate
 instance (z : Int) : Decidable (PrintableDate z) := by unfold PrintableDate; exact inferInstance
 
 /-- an amount `String()` prints exactly: a decimal rational -/
